@@ -34,7 +34,7 @@ def sample_coverage(ctx: Ctx) -> list[Ob]:
 def run(ctx: Ctx) -> list[Ob]:
     obs: list[Ob] = []
     obs += r4.layer_contracts(ctx, {"R4s"})
-    obs += r4.query_contracts(ctx, {"pad"})
+    obs += r4.query_contracts(ctx, {"pad", "sample-call"})
     obs += sample_coverage(ctx)
     obs += r8.run_guards(ctx, [g for g in r8.GUARDS_QUERIES if "SamplingQuery" in g.func])
     return obs
@@ -51,10 +51,10 @@ SPEC = PropSpec(
         "unit axis returns (F, Ki, N^H, D)) -- and SamplingQuery._pad_samples maps (F, Ko, N) to (F, Ko, N, |scope|) ('each variable "
         "column is filled from the input layer of that variable' needs that layout); R4t: every concrete inner layer class overrides "
         "the refusing base sample() (otherwise the query raises for the circuits built with it, e.g. under optimize=True); R8: the "
-        "guards of SamplingQuery (__init__, __call__) fire under every valuation. R4u: sample() of every inner layer reads all of its inputs (selections x[:, i] of the arity axis cover 0..H-1, or the axis is reduced / unbound / flattened as a whole): an input that is never read leaves its variables at zero in every sample."
+        "guards of SamplingQuery (__init__, __call__) fire under every valuation; R4q sample-call: SamplingQuery.__call__, interpreted on an abstract (O, K, N, D) result of the sampling pass, returns (num_samples, num_variables) whose rows are the sample axis and whose columns are the variable axis (element order, not only sizes). R4u: sample() of every inner layer reads all of its inputs (selections x[:, i] of the arity axis cover 0..H-1, or the axis is reduced / unbound / flattened as a whole): an input that is never read leaves its variables at zero in every sample."
     ),
     not_decided="the distribution of the samples (statistical); which mixture component is chosen; positivity of the returned samples.",
     run=run,
-    floors={"R4u": 6, "R4s": 14, "R4q": 1, "R4t": 5},
+    floors={"R4u": 6, "R4s": 14, "R4q": 2, "R4t": 5},
     assumptions=["the shape rules of the torch / einops operators modelled in sa/tensor_ops.py (each validated against torch at development time, design_notes/devcheck)"],
 )
